@@ -80,6 +80,8 @@ pub struct OpRec {
     pub blocking_calls_at_inv: u32,
     pub has_panic: bool,
     pub suspend_step: u64,
+    /// the task that polled this op's gate wait last (the context its registered waker resumes)
+    pub last_poll_task: usize,
 }
 
 impl OpRec {
@@ -111,6 +113,7 @@ impl OpRec {
             blocking_calls_at_inv: 0,
             has_panic: false,
             suspend_step: 0,
+            last_poll_task: usize::MAX,
         }
     }
     pub fn ended(&self) -> bool {
